@@ -140,6 +140,7 @@ pub struct RunStats {
 
 struct Pending {
     seq: u64,
+    enq_step: u64,
     desc: OpDesc,
     task: u32,
     tx: oneshot::Sender<Verdict>,
@@ -193,7 +194,8 @@ pub async fn gate(desc: OpDesc) -> Verdict {
                 let task = task_index(ctx);
                 let seq = ctx.next_seq;
                 ctx.next_seq += 1;
-                ctx.pending.push(Pending { seq, desc, task, tx });
+                let enq_step = ctx.stats.steps;
+                ctx.pending.push(Pending { seq, enq_step, desc, task, tx });
                 Some(rx)
             }
         }
@@ -420,8 +422,15 @@ where
                     }
                 }
                 // pick
+                // bounded unfairness: an operation that has waited for `MAX_WAIT` decisions is served
+                // next (a node may be slow, but no node is stalled forever: liveness is judged under
+                // a scheduler that is unfair only for a bounded number of steps)
+                const MAX_WAIT: u64 = 400;
+                let starving = ctx.pending.iter().position(|p| ctx.stats.steps.saturating_sub(p.enq_step) > MAX_WAIT);
                 let idx = if n == 1 {
                     0
+                } else if let Some(i) = starving {
+                    i
                 } else {
                     match ctx.cfg.policy {
                         Policy::Uniform => ctx.chooser.choose(n as u32) as usize,
